@@ -25,7 +25,8 @@ PROPS = ['C19_lines_rt', 'C19_text_file_rt', 'C19_utf8_rt', 'C19_lines_need_clea
          'C19_legacy_quant_refuted', 'C19_bgr_swap_involutive', 'C19_image_rt', 'C19_image_levels_rt',
          'C19_chw_hwc_inverse', 'C19_hwc_chw_inverse', 'C19_torch_equals_numpy_chw', 'C19_torch_equals_numpy_hwc',
          'C19_channels_first_ambiguous', 'C19_channels_first_legacy_refuted', 'C19_channels_last_legacy_refuted',
-         'C19_channels_first_legacy_partial', 'C19_instance']
+         'C19_channels_first_legacy_partial', 'C19_torch_style_gray', 'C19_torch_style_off', 'C19_torch_style_color',
+         'C19_torch_style_color_shape', 'C19_image_rt_full', 'C19_instance']
 PRE = ('From Coq Require Import ZArith List Bool. Import ListNotations. Open Scope Z_scope.\n'
        'From OdakV Require Import C19.Model.')
 CHANNEL_COUNTS = (1, 3, 4)
@@ -156,8 +157,20 @@ def oracle_image(inp):
     want_shape = logical_squeeze(lv.shape)
     lvs = lv.reshape(want_shape)
     try:
+        form = inp.get('form', 'keyword')
+        if form == 'default' and not (inp.get('cmax') is None and depth == 8 and cmin == 0.):
+            form = 'keyword'
+        if form == 'int' and float(cmin).is_integer() and float(cmax).is_integer():
+            cmin, cmax = int(cmin), int(cmax)
+
+        def save(f, name, img):
+            if form == 'default':
+                return f(name, img)                            # cmin = 0, cmax = 255, color_depth = 8
+            if form == 'positional':
+                return f(name, img, cmin, cmax, depth)
+            return f(name, img, cmin=cmin, cmax=cmax, color_depth=depth)
         if api == 'numpy':
-            T.save_image(fn, x, cmin=cmin, cmax=cmax, color_depth=depth)
+            save(T.save_image, fn, x)
         else:
             xt = torch.tensor(x, dtype=torch.float32)
             lay = inp.get('layout', 'chw')
@@ -167,16 +180,16 @@ def oracle_image(inp):
                     t = t.unsqueeze(0)
             else:
                 t = xt
-            LT.save_image(fn, t, cmin=cmin, cmax=cmax, color_depth=depth)
+            save(LT.save_image, fn, t)
             # the equivalent NumPy array through the NumPy saver: same file, byte for byte
-            T.save_image(fn2, xt.numpy(), cmin=cmin, cmax=cmax, color_depth=depth)
+            save(T.save_image, fn2, xt.numpy())
             same = rd(fn) == rd(fn2)
             if not same and inp.get('ambiguous') and lv.ndim == 3:
                 # CHW and HWC are both legitimate readings of this shape: either file is accepted
                 t3 = t.numpy().reshape(t.shape[-3:])
                 for cand in (t3, np.moveaxis(t3, 0, -1)):
                     try:
-                        T.save_image(fn2, cand, cmin=cmin, cmax=cmax, color_depth=depth)
+                        save(T.save_image, fn2, cand)
                         same = same or rd(fn) == rd(fn2)
                     except Exception:
                         pass
@@ -196,19 +209,30 @@ def oracle_image(inp):
             wrong = np.argwhere((raw[:, :, order] != lvs).any(axis=2))
             out.append(('info:channel_order_on_disk', len(wrong) == 0, 'B, G, R(, A) of every pixel in the file',
                         None if len(wrong) == 0 else 'pixel %s stored as %s for R,G,B(,A) = %s' % (wrong[0].tolist(), raw[tuple(wrong[0])].tolist(), lvs[tuple(wrong[0])].tolist())))
-        if api == 'numpy':
-            got = T.load_image(fn)
-            gots = [('load', got, lvs)]
-            if inp.get('cmax') is not None:
-                gots.append(('load_normalized', T.load_image(fn, normalizeby=L / float(cmax)), x.reshape(want_shape)))
-            if lvs.ndim == 3:
-                gots.append(('load_torch_style', T.load_image(fn, torch_style=True), np.moveaxis(lvs, -1, 0)))
-        else:
-            got = LT.load_image(fn)
-            gots = [('load', got.numpy(), lvs)]
-            out.append(('info:loaded_is_float_tensor', isinstance(got, torch.Tensor) and got.dtype == torch.float32, 'torch.float32 tensor', str(type(got))))
-            if lvs.ndim == 3:
-                gots.append(('load_torch_style', LT.load_image(fn, torch_style=True).numpy(), np.moveaxis(lvs, -1, 0)))
+        # the documented argument space of load_image: torch_style in {False, True} x normalizeby in {default 0,
+        # the float that undoes (cmin, cmax), the integer number of levels}; every rank: a monochrome file comes
+        # back (H, W) whatever torch_style says, a colour file (H, W, C) or, torch style, (C, H, W)
+        loader = T.load_image if api == 'numpy' else LT.load_image
+        nbs = [('0', None), ('levels', L)] + ([('range', L / float(cmax))] if inp.get('cmax') is not None else [])
+        gots = []
+        for ts in (False, True):
+            for nbname, nb in nbs:
+                kw = {}
+                if ts or inp.get('seed', 0) % 2:
+                    kw['torch_style'] = ts                      # False is also passed explicitly now and then
+                if nb is not None:
+                    kw['normalizeby'] = nb
+                got = loader(fn, **kw)
+                want = (np.moveaxis(lvs, -1, 0) if ts and lvs.ndim == 3 else lvs).astype(np.float64)
+                if nb is not None:
+                    want = want * 1. / nb
+                name = 'torch_style=%s,normalizeby=%s' % (ts, nbname)
+                if api == 'numpy':
+                    out.append(('info:dtype[%s]' % name, isinstance(got, np.ndarray) and got.dtype == np.float64, 'float64 ndarray', str(getattr(got, 'dtype', type(got)))))
+                else:
+                    out.append(('info:dtype[%s]' % name, isinstance(got, torch.Tensor) and got.dtype == torch.float32, 'torch.float32 tensor', str(getattr(got, 'dtype', type(got)))))
+                    got = got.numpy(); want = want.astype(np.float32)
+                gots.append((name, got, want))
         for name, g, want in gots:
             g = np.asarray(g)
             okshape = tuple(g.shape) == tuple(want.shape)
@@ -650,7 +674,7 @@ def gen_image_inputs(ctx):
                     out.append({'api': 'numpy', 'depth': 16, 'shape': [64, 128], 'pattern': 'ramp', 'start': s, 'cmax': cmax})
                 out.append({'api': 'numpy', 'depth': 16, 'shape': [32, 32, 3], 'pattern': 'ramp', 'step': 21, 'start': rng.randint(0, L), 'cmax': cmax})
     # sizes: 1-pixel sides, odd, non-square, channel counts, both APIs and layouts
-    sizes = [(1, 1), (1, 2), (2, 1), (1, 7), (7, 1), (2, 2), (2, 5), (3, 3), (3, 5), (5, 3), (4, 4), (5, 4), (13, 7), (16, 9)]
+    sizes = [(h, w) for h in range(1, 6) for w in range(1, 6)] + [(1, 7), (7, 1), (13, 7), (16, 9), (9, 3), (6, 4)]
     if big:
         sizes += [(h, w) for h in range(1, 9) for w in range(1, 9)] + [(64, 48), (101, 3), (3, 101)]
     for (h, w) in sizes:
@@ -658,7 +682,8 @@ def gen_image_inputs(ctx):
             for depth in (8, 16):
                 shape = [h, w] if c is None else [h, w, c]
                 base = {'depth': depth, 'shape': shape, 'seed': rng.randint(0, 10 ** 6), 'pattern': rng.choice(['random', 'extremes']),
-                        'cmax': rng.choice(RANGES)}
+                        'cmax': rng.choice(RANGES if (h + w + depth) % 3 else [None, 255.0, 65535.0, 100.0]),
+                        'form': rng.choice(['keyword', 'keyword', 'positional', 'int', 'default'])}
                 out.append(dict(base, api='numpy'))
                 if c is None:
                     out.append(dict(base, api='torch', layout='hw'))
@@ -777,7 +802,7 @@ def b2_layout(ctx):
     """what is handed to cv2.imwrite (read back raw) and what load_image makes of a raw file, on arrays of distinct levels"""
     T, LT = mods()
     rng = ctx.rng
-    shapes = [(1, 1), (2, 3), (3, 2), (1, 4), (2, 2, 1), (3, 1, 1), (1, 1, 3), (2, 3, 3), (3, 2, 3), (1, 5, 3), (2, 2, 4), (3, 1, 4), (4, 3, 3)]
+    shapes = [(1, 1), (2, 3), (3, 2), (1, 4), (4, 1), (2, 4), (5, 3), (1, 5), (2, 2, 1), (3, 1, 1), (3, 4, 1), (2, 5, 1), (1, 3, 1), (1, 1, 3), (2, 3, 3), (3, 2, 3), (1, 5, 3), (2, 2, 4), (3, 1, 4), (4, 3, 3)]
     terms, meta = [], []
     for shp in shapes:
         for depth in (8, 16):
@@ -796,13 +821,17 @@ def b2_layout(ctx):
             meta.append(('load', shp, depth, loaded))
             terms.append('shape_ok (%s %s)' % (ctor, nest(lv)))
             meta.append(('accepted', shp, depth, True))
-            if loaded.ndim == 3:                             # torch_style = True: np.moveaxis(image, -1, 0)
+            # load_image(torch_style) for each rank, both APIs: model load_view on the raw file content
+            for ts in (False, True):
                 fn = fresh('.png')
                 T.save_image(fn, lv.astype(float), cmin=0, cmax=L, color_depth=depth)
-                ts = T.load_image(fn, torch_style=True)
+                for apiname, ld in (('numpy', T.load_image), ('torch', LT.load_image)):
+                    v = ld(fn, torch_style=ts)
+                    v = v.numpy() if isinstance(v, torch.Tensor) else v
+                    terms.append('(load_view (fun z => z) %s (%s %s), image_shape (load_view (fun z => z) %s (%s %s)))' % (
+                        'true' if ts else 'false', rctor, nest(raw.astype(int)), 'true' if ts else 'false', rctor, nest(raw.astype(int))))
+                    meta.append(('torch_style', shp + (apiname, ts), depth, v))
                 rm(fn)
-                terms.append('hwc_to_chw %d %s' % (loaded.shape[2], nest(loaded.astype(int))))
-                meta.append(('torch_style', shp, depth, ts))
     # the PyTorch saver: the array it hands to the NumPy saver (recorded), every small shape
     import odak.tools
     got = {}
@@ -850,7 +879,11 @@ def b2_layout(ctx):
         elif what == 'accepted':
             ok = (v or '').strip() == 'true'
         elif what == 'torch_style':
-            ok = np.array(tolist(m)).shape == impl.shape and bool((np.array(tolist(m)) == impl).all())
+            # m = ((ctor, array), shape): same rank (Gray <-> two axes), same shape, same values
+            ok = False
+            if isinstance(m, tuple) and len(m) == 3 and m[0] in ('Gray', 'Color'):       # printed as (Gray [[..]], [h; w])
+                arr = np.array(tolist(m[1])); mshape = list(tolist(m[2]))
+                ok = (m[0] == 'Gray') == (impl.ndim == 2) and list(arr.shape) == list(impl.shape) == mshape and bool((arr == impl).all())
         elif what == 'torch_array':
             ok = impl is not None and np.array(tolist(m)).shape == impl.shape and bool((np.array(tolist(m)) == impl).all())
         else:
